@@ -10,7 +10,7 @@ From SPV Require Import Base.Str Model.OptStr Model.Help Model.HelpSpec Gen.Fact
    accepted for the field (C10 characterises them), each once - whatever the hash seed *)
 Theorem C16_complete : forall perm c D F,
   valid perm ->
-  Forall2 (fun w g => g_title g = spec_title w
+  Forall2 (fun w g => g_title g = spec_title w /\ g_desc g = hw_doc w
                       /\ Forall2 (shows c) (filter spec_exposed (hw_fields w)) (g_entries g))
           F (help_entries_gen perm c D F).
 Proof. exact help_complete. Qed.
@@ -31,6 +31,20 @@ Theorem C16_hidden_never : forall perm c D F w f,
   /\ (forall o, ~ In (o, hdest f) (registered (help_entries_gen perm c D F))).
 Proof. exact hidden_never. Qed.
 Print Assumptions C16_hidden_never.
+
+(* ... but "never appears" is false of the group DESCRIPTION, which is the class docstring verbatim: the docstring that
+   `dataclasses` writes for a class without one is the constructor signature, hidden fields and their defaults included *)
+Theorem C16_hidden_in_description_refuted :
+  exists perm c D F, valid perm /\ hidden_not_mentioned F (help_entries_gen perm c D F) = false.
+Proof. exact hidden_in_description_refuted. Qed.
+Print Assumptions C16_hidden_in_description_refuted.
+
+Theorem C16_hidden_not_in_description_partial : forall perm c D F,
+  (forall w w' f, In w F -> In w' F -> In f (hw_fields w) -> spec_exposed f = false ->
+                  occurs (name (hf_fw f)) (hw_doc w') = false) ->
+  hidden_not_mentioned F (help_entries_gen perm c D F) = true.
+Proof. exact hidden_not_in_description_partial. Qed.
+Print Assumptions C16_hidden_not_in_description_partial.
 
 (* the default shown is the effective default: the definition's, overridden by what a default instance / set_defaults /
    a config file installed (D; their layering is C06).  Side condition: the help text is empty or not blank. *)
@@ -129,6 +143,7 @@ Print Assumptions C16_print_help_inert_partial.
 (* ==================================================================================================================== *)
 Example C16_order_fact : option_order_preserved_gen = false.
 Proof. reflexivity. Qed.
+Print Assumptions C16_order_fact.
 
 Theorem C16_not_reproducible_today :
   exists p1 p2 c m pre cfgf F,
@@ -138,6 +153,7 @@ Print Assumptions C16_not_reproducible_today.
 
 Example C16_print_help_fact : print_help_applies_config_gen = false.
 Proof. reflexivity. Qed.
+Print Assumptions C16_print_help_fact.
 
 Theorem C16_print_help_not_inert_today :
   exists perm c m pre cfgf F, valid perm /\ ~ api_agrees perm c m pre cfgf F.
@@ -149,9 +165,9 @@ Print Assumptions C16_print_help_not_inert_today.
 Example C16_nonvacuous :
   valid (perm_of [["--bb"; "--cc"]])
   /\ run_cli_help_gen (perm_of [["--bb"; "--cc"]]) default_cfg_parser CRAuto [] [("a.bb", "7")] demo_forest
-     = mkrun (Exit 0) (Some (SOut, [mkgroup "K1 ['a']" [mkentry "a.bb" ["--bb"; "--cc"] (Some "7") "the value";
+     = mkrun (Exit 0) (Some (SOut, [mkgroup "K1 ['a']" "Doc of K1." [mkentry "a.bb" ["--bb"; "--cc"] (Some "7") "the value";
                                                         mkentry "a.x" ["-x"; "--x"] None ""]]))
-  /\ forest_tie_free default_cfg_parser [mkhw "K1" ["a"] [mkhf (mkfw ["a"] "x" "" [] false) true None "" None]] = true
+  /\ forest_tie_free default_cfg_parser [mkhw "K1" ["a"] "Doc." [mkhf (mkfw ["a"] "x" "" [] false) true None "" None]] = true
   /\ NoDup (map hdest (flat_map hw_fields demo_forest)).
 Proof.
   split; [apply perm_of_valid|]. split; [vm_compute; reflexivity|]. split; [vm_compute; reflexivity|].
